@@ -72,6 +72,50 @@ def model_stage(ctx, pid):
     return events, mine
 
 
+# ----------------------------------------------------------------------------- CsModel: the countersignature life cycle as a state machine
+CS_CONSTS = dict(Algs='{"A", "B"}', Keys='{"k1", "k2"}', Exts='{"none", "e1"}')
+CS_PROPS = ["CS_Exact", "CS_SignThenVerify", "CS_ReadOnly", "CS_NoHalfSigned", "CS_Atomic"]
+CS_INVS = ["CS_BindsParent", "CS_FormsSeparate", "CS_FormImmaterial", "CS_RoundTrip"]
+
+
+def cs_stage(ctx, pid, light=False):
+    """CsModel: (a) model checking (core scope exhaustively, full scope up to a number of steps), (b) behaviours replayed on real objects,
+    (c) trace validation; returns the events and the rejections that belong to property pid.  light: random behaviours only (the owner of
+    the model, C10, runs everything)"""
+    one = dict(CS_CONSTS, Keys='{"k1"}')
+    if not light:
+        mc(ctx, "CsModel", cfgtext(invariants=CS_INVS, props=CS_PROPS, constants=dict(MaxHist=0, Record="FALSE", Scope='"core"', MaxLevel=0, **(one if ctx.quick() else CS_CONSTS)),
+                               extra="VIEW View\n"), timeout=1800, heap="8g")
+        mc(ctx, "CsModel", cfgtext(invariants=CS_INVS, props=CS_PROPS, constants=dict(MaxHist=0, Record="FALSE", Scope='"all"', MaxLevel=5 if ctx.quick() else 7, **one),
+                               extra="VIEW View\nCONSTRAINT LevelBound\n"), timeout=3000, heap="8g")
+    n, depth = (1200, 10) if ctx.quick() else (20000, 14)
+    consts = dict(Record="TRUE", Scope='"all"', MaxLevel=0, **CS_CONSTS)
+    cases = [] if light else gen(ctx, "Gen_Cs", cfgtext(invariants=["Emit"], constants=dict(MaxHist=2, **consts)), timeout=1200, heap="8g")
+    cases += gen(ctx, "Gen_Cs", cfgtext(invariants=["Emit"], constants=dict(MaxHist=depth, **consts)), simulate=max(1, n // 50), depth=depth + 2, seed=ctx.seed, timeout=1200, heap="8g")
+    events = harness(ctx, ["exec", "memflow"], cases)
+    jc = "".join("CONSTANT %s = %s\n" % kv for kv in dict(MaxHist=0, Record="FALSE", Scope='"all"', MaxLevel=0, **CS_CONSTS).items())
+    rej = judge(ctx, "Trace_Cs", events, per_shard=300, extra_cfg=jc)
+    mine, other = {}, 0
+    for idx, reasons in rej.items():
+        r = [x for x in reasons if x.startswith(pid + ":") or x.startswith("infra-")]
+        other += len(reasons) - len(r)
+        if r:
+            mine[idx] = r
+    ctx.notes["csmodel_behaviours_replayed"] = len(events)
+    ctx.notes["csmodel_rejections_attributed_to_other_properties"] = other
+    return events, mine
+
+
+def with_cs_model(ctx, pid, events, rejects, light=False):
+    mev, mrej = cs_stage(ctx, pid, light)
+    base = len(events)
+    events = events + mev
+    rejects = dict(rejects)
+    for idx, r in mrej.items():
+        rejects[base + idx] = r
+    return events, rejects
+
+
 def with_model(ctx, pid, events, rejects):
     mev, mrej = model_stage(ctx, pid)
     base = len(events)
@@ -79,6 +123,8 @@ def with_model(ctx, pid, events, rejects):
     rejects = dict(rejects)
     for idx, r in mrej.items():
         rejects[base + idx] = r
+    if pid in ("C03", "C04", "C09", "C19", "C20"):          # the countersignature life cycle has requirements of these properties too
+        events, rejects = with_cs_model(ctx, pid, events, rejects, light=ctx.quick())
     return events, rejects
 
 
@@ -371,7 +417,7 @@ def c11(ctx):
     rejects = judge(ctx, "Trace_C11", events)
     return report(ctx, events, rejects,
                   nontrivial=lambda e: e["n"] > 0,
-                  key=lambda e: json.dumps([e["flow"], e["n"], e.get("dec"), e.get("vl"), e.get("c"), e.get("hole"), e.get("j"), e.get("what")]),
+                  key=lambda e: json.dumps([e["flow"], e["n"], e.get("dec"), e.get("vl"), e.get("c"), e.get("hole"), e.get("j"), e.get("what"), e.get("nc")]),
                   rule="TLC enumerates COSE_Sign programs: n = 0..N signers of three algorithm families, signing, serialisation, optional wire round trip, "
                        "every subset of slots corrupted (garbage / emptied / overwritten with another slot's signature), verification with every permutation "
                        "class of verifiers and counts n-1, n, n+1; wire images with zero or empty signatures; symbolic signers/verifiers record every call; TLC "
@@ -386,9 +432,10 @@ def c10(ctx):
     cases = gen(ctx, "Gen_C10", cfgtext(invariants=["Emit"], constants=dict(Deep="TRUE", DeepWidths="{0, 4}" if ctx.quick() else "{0, 1, 2, 4, 8}")), timeout=3000, heap="8g")
     events = harness(ctx, ["exec", "memflow"], cases)
     rejects = judge(ctx, "Trace_C10", events)
+    events, rejects = with_cs_model(ctx, "C10", events, rejects)
     return report(ctx, events, rejects,
                   nontrivial=lambda e: True,
-                  key=lambda e: json.dumps([e["flow"], e.get("pk"), e.get("form"), e.get("abbr"), e.get("dec"), e["ext"], e.get("mu"), e.get("why"), e.get("r"),
+                  key=lambda e: json.dumps(e["acts"]) if "acts" in e else json.dumps([e["flow"], e.get("pk"), e.get("form"), e.get("abbr"), e.get("dec"), e["ext"], e.get("mu"), e.get("why"), e.get("r"),
                                             e["steps"][-1].get("extnil")]),
                   rule="TLC enumerates countersignature programs: 4 parent kinds x pointer/value x full/abbreviated x constructed/decoded parent (decoded from a "
                        "wire image with a non-minimal protected length prefix) x external data (nil/empty/non-empty) x one mutation of the parent (none, payload, "
@@ -715,6 +762,14 @@ def replay(ctx, path):
         op = ev["op"]                      # C16 / C17 / C18 events name their executor
     if pid == "C08" and "steps" in ev:
         op, module = "memflow", "Trace_C08Seq"
+    prefix = None
+    if "acts" in ev:                       # a behaviour of one of the life-cycle models
+        op, prefix = "memflow", pid + ":"
+        if "okind" in ev:
+            module, kc = "Trace_Model", dict(MaxHist=0, Record="FALSE", KidVals="{0, 1}", **dict(MODEL_CONSTS, ObjKind='"%s"' % ev["okind"]))
+        else:
+            module, kc = "Trace_Cs", dict(MaxHist=0, Record="FALSE", Scope='"all"', MaxLevel=0, **CS_CONSTS)
+        extra = "".join("CONSTANT %s = %s\n" % kv for kv in kc.items())
     if "session" in doc:
         events = harness(ctx, ["exec", "memflow-session"], [dict(session=doc["session"])])[0]["events"][-1:]
         rejects = judge(ctx, module, events, extra_cfg=extra)
@@ -733,8 +788,11 @@ def replay(ctx, path):
         if pid == "C01":
             events = [dict(flow=e["flow"], kind=e["kind"], alg=e["alg"], kk=e["kk"], h=e["h"], n=e["n"], obs=[dict(op=o["op"], res=o["res"]) for o in e["obs"]]) for e in events]
     rejects = judge(ctx, module, events, extra_cfg=extra)
+    if prefix:
+        rejects = {i: [x for x in r if x.startswith(prefix)] for i, r in rejects.items()}
+        rejects = {i: r for i, r in rejects.items() if r}
     if rejects:
-        print("VIOLATION property=%s replay=%s reason=%s" % (pid, path, ",".join(rejects[0])))
+        print("VIOLATION property=%s replay=%s reason=%s" % (pid, path, ",".join(list(rejects.values())[0])))
         return 1
     print("replay: not reproduced on the current tree (%s)" % path)
     return 0
